@@ -29,6 +29,27 @@ type c17Out struct {
 	ID     int               `json:"id"`
 	Mid    map[string]c17Mid `json:"mid"`
 	MidEnv map[string]c17Mid `json:"midenv,omitempty"`
+	// the byte slices RETURNED by YamlToJson / TomlToJson for this case and for the case before it
+	// still hold what they held when they were returned (they are the caller's: a later conversion
+	// must not write into them)
+	Retained bool `json:"retained"`
+}
+
+// a returned slice (not a copy) and its content at the time it was returned
+type c17Kept struct {
+	b []byte
+	s string
+}
+
+var c17Keep, c17KeepPrev []c17Kept
+
+func c17Intact() bool {
+	for _, k := range append(append([]c17Kept{}, c17KeepPrev...), c17Keep...) {
+		if string(k.b) != k.s {
+			return false
+		}
+	}
+	return true
 }
 
 func c17Convert(texts map[string]string) map[string]c17Mid {
@@ -44,9 +65,11 @@ func c17Convert(texts map[string]string) map[string]c17Mid {
 			return
 		}
 		res[name] = c17Mid{OK: true, JSON: string(b)}
+		c17Keep = append(c17Keep, c17Kept{b: b, s: string(b)})
 	}
 	conv("yaml", YamlToJson)
 	conv("toml", TomlToJson)
+	conv("yaml", YamlToJson) // once more: the first results are kept across later conversions
 	conv("json", func(b []byte) ([]byte, error) { return b, nil })
 	return res
 }
@@ -72,6 +95,7 @@ func TestVerifC17(t *testing.T) {
 	w := bufio.NewWriter(f)
 	defer w.Flush()
 	for _, c := range cases {
+		c17KeepPrev, c17Keep = c17Keep, nil
 		o := c17Out{ID: c.ID, Mid: c17Convert(c.Texts)}
 		if c.Env != nil {
 			for k, v := range c.Env {
@@ -86,6 +110,7 @@ func TestVerifC17(t *testing.T) {
 				os.Unsetenv(k)
 			}
 		}
+		o.Retained = c17Intact()
 		b, err := json.Marshal(o)
 		if err != nil {
 			t.Fatal(err)
